@@ -603,8 +603,9 @@ impl Decoder {
                     return Err(PdfError::DecryptionFailure);
                 }
                 let (iv, ciphertext) = data.split_at_mut(16);
+                // Algorithm 1.A: the whole 32 byte file key, not the 16 byte prefix `key()` yields
                 let cipher =
-                    t!(Aes256CbcDec::new_from_slices(self.key(), iv).map_err(|_| PdfError::DecryptionFailure));
+                    t!(Aes256CbcDec::new_from_slices(&self.key, iv).map_err(|_| PdfError::DecryptionFailure));
                 Ok(t!(cipher
                     .decrypt_padded_mut::<Pkcs7>(ciphertext)
                     .map_err(|_| PdfError::DecryptionFailure)))
